@@ -40,7 +40,7 @@ import rd_common as R
 CID = "C16"
 AREA = "rdalg"
 VO = ["props/C16.vo", "gen/RdTables.vo", "rd/RdBase.vo", "rd/RdModel.vo", "rd/RdAlgModel.vo",
-      "rd/RdAlgSpec.vo", "rd/RdAlgQModel.vo", "rd/RdGenBase.vo", "gen/RdMethodsGen.vo"]
+      "rd/RdAlgSpec.vo", "rd/RdAlgQModel.vo", "rd/RdGenBase.vo"]
 E_MKFRAC, E_ROUNDTRIP, E_ADDTD, E_MULQ = 30, 31, 32, 33
 S_FIX, S_EQB, S_PRED, S_CANON = 40, 41, 42, 43
 E_CTORQ, E_NORMQ, E_NEGQ, E_ABSQ, E_ADDQ, E_SUBQ = 50, 51, 52, 53, 54, 55
@@ -1242,60 +1242,6 @@ def translator_errors():
     return [m.strip() for m in re.findall(r"\(\* TRANSLATE-ERROR (.*?) \*\)", txt, flags=re.S)]
 
 
-def private_gen_check():
-    """Re-check the C16_gen_* obligations in a PRIVATE directory: translator output for THIS run's
-    source (VERIF_REPO), a copy of coq/rd/RdGenThm.v and of the C16_gen_* part of props/C16.v bound
-    to it.  coq/gen/ is shared with every concurrently running check (each regenerates it from its
-    own source tree), so the shared build can be overwritten between the build and compile_props;
-    this private compilation cannot.  -> dict(names, discharged, errors, log, expected_text)"""
-    import importlib.util
-    import re
-    import shutil
-    spec = importlib.util.spec_from_file_location("gen_rd_methods", os.path.join(C.VERIF, "harness", "gen_rd_methods.py"))
-    G = importlib.util.module_from_spec(spec)
-    spec.loader.exec_module(G)
-    try:
-        txt, errors = G.translate(open(os.path.join(C.SRC, "dateutil", "relativedelta.py")).read(),
-                                  open(os.path.join(C.SRC, "dateutil", "_common.py")).read())
-        terrs = ["%s: %s" % e for e in errors]
-    except Exception as ex:
-        txt, terrs = "(* TRANSLATE-ERROR source: %s *)\n" % ex, ["source: %s" % ex]
-    d = os.path.join(C.BUILD, "rdalg_gen_%d" % os.getpid())
-    shutil.rmtree(d, ignore_errors=True)
-    os.makedirs(os.path.join(d, "P"))
-    try:
-        open(os.path.join(d, "P", "RdMethodsGen.v"), "w").write(txt)
-        thm = open(os.path.join(C.COQ, "rd", "RdGenThm.v")).read()
-        if "gen.RdMethodsGen" not in thm:
-            return {"names": [], "discharged": 0, "errors": terrs, "log": "RdGenThm.v does not import gen.RdMethodsGen"}
-        thm = thm.replace(" gen.RdMethodsGen", "", 1).replace("Import ListNotations.",
-                                                              "From P Require Import RdMethodsGen.\nImport ListNotations.", 1)
-        open(os.path.join(d, "P", "RdGenThm.v"), "w").write(thm)
-        props = open(os.path.join(C.COQ, "props", "C16.v")).read()
-        marker = "From V Require Import rd.RdGenBase gen.RdMethodsGen rd.RdGenThm."
-        if marker not in props:
-            return {"names": [], "discharged": 0, "errors": terrs, "log": "marker line missing in props/C16.v"}
-        head = props[:props.index("Theorem C16_")]
-        head = re.sub(r"\(\*.*?\*\)", "", head, flags=re.S)
-        tail = props[props.index(marker) + len(marker):]
-        open(os.path.join(d, "P", "C16gen.v"), "w").write(
-            head + "\nFrom V Require Import rd.RdGenBase.\nFrom P Require Import RdMethodsGen RdGenThm.\n" + tail)
-        names = re.findall(r"^\s*Theorem\s+([A-Za-z0-9_']+)", re.sub(r"\(\*.*?\*\)", "", tail, flags=re.S), flags=re.M)
-        log = ""
-        rc = 0
-        for f in ("RdMethodsGen.v", "RdGenThm.v", "C16gen.v"):
-            rc, out = C.sh(["timeout", "900", "coqc", "-R", C.COQ, "V", "-R", os.path.join(d, "P"), "P",
-                            os.path.join(d, "P", f)], cwd=d)
-            log += out
-            if rc != 0:
-                break
-        n = len(re.findall(r"(?m)^(Closed under the global context|Axioms:)", log))
-        return {"names": names, "discharged": n if rc != 0 or n <= len(names) else len(names), "errors": terrs,
-                "log": log, "ok": rc == 0 and n == len(names)}
-    finally:
-        shutil.rmtree(d, ignore_errors=True)
-
-
 def load_corpus():
     path = os.path.join(C.VERIF, "corpus", "regressions", CID + ".jsonl")
     out = []
@@ -1354,24 +1300,14 @@ def main():
                  "cmd": "coqc props/C16.v", "log": build_err.log, "ok": False}
     else:
         props = C.compile_props(CID)
-    # the regenerated file is shared state: when this run reads another source tree than /repo (or the
-    # shared file is not what this run's source translates to), settle the C16_gen_* obligations privately
+    # compile_props regenerates coq/gen from the tree under test, makes props/C16.vo and compiles it under
+    # one hold of the build lock; the translators' TRANSLATE-ERROR lines are in its log when it fails
     priv_gen = None
-    try:
-        shared = open(os.path.join(C.COQ, "gen", "RdMethodsGen.v")).read()
-    except OSError:
-        shared = None
-    if build_err is None and (os.path.realpath(C.REPO) != "/repo" or shared is None or not props["ok"]
-                              or "TRANSLATE-ERROR" in shared):
-        priv_gen = private_gen_check()
-        gen_names = [n for n in props["theorems"] if n.startswith("C16_gen_")]
-        base_names = [n for n in props["theorems"] if not n.startswith("C16_gen_")]
-        base_ok = props["discharged"] >= len(base_names)
-        if base_ok and priv_gen["names"] == gen_names:
-            props["discharged"] = len(base_names) + priv_gen["discharged"]
-            props["ok"] = bool(priv_gen.get("ok"))
-            props["log"] = props["log"][-1500:] + "\n--- private re-check of the C16_gen_* obligations ---\n" + priv_gen["log"][-2500:]
-            terrs_early = priv_gen["errors"]
+    if not props["ok"]:
+        terrs_early = sorted(set(terrs_early + [l.split("TRANSLATE-ERROR ", 1)[1].strip()
+                                                for l in props["log"].splitlines() if l.startswith("TRANSLATE-ERROR ")]))
+    else:
+        terrs_early = []
     have_oracle = os.path.exists(os.path.join(C.BIN, "oracle_" + AREA))
     totals = {}
     allviol = []
@@ -1478,10 +1414,11 @@ def main():
             "file": "coq/gen/RdMethodsGen.v (harness/gen_rd_methods.py, every run)",
             "methods": "_sign, _fix, _set_months, __neg__, __abs__, __bool__/__nonzero__, __eq__, __hash__, "
                        "__ne__, __add__/__sub__ (relativedelta operand), __add__ (timedelta operand), __mul__/__rmul__ "
-                       "(integer factor), shape of __init__'s keyword path, "
+                       "(integer factor), normalized() on integer fields, the keyword path of __init__ (head here, "
+                       "yearday conversion by harness/gen_rd_add.py, composed in rd/RdGenInitThm.v), "
+                       "_common.weekday.__init__/__call__, "
                        "_common.weekday.__eq__/__hash__",
             "translator_errors": terrs,
-            "settled_in_private_directory": priv_gen is not None,
             "gen_obligations": [n for n in props["theorems"] if n.startswith("C16_gen_")],
             "gen_obligations_discharged": [n for n in props["theorems"][:props["discharged"]]
                                            if n.startswith("C16_gen_")]},
